@@ -30,3 +30,12 @@ package syslwrapper
 //@   ghostclear @iter:0 mapped
 //@   ghostset @mapupdate:map[string]*syslwrapper.Parameter mapped
 //@   loop 0 step [every-query-parameter-mapped] ghost("mapped")
+
+// A collection return (`sequence of X`, `set of X`) becomes a list / set whose single item is mapped from exactly the
+// text that remains when the first occurrence of the collection keyword is removed; any other return is mapped as is.
+//@ func (*AppMapper).mapReturnType
+//@   maypanic
+//@   assert @call:syslwrapper.(*AppMapper).mapSimpleReturnType [element-is-the-text-without-the-collection-keyword] arg2 == appName && (arg1 == retValue || arg1 == replaceFirst(retValue, "sequence of ", "") || arg1 == replaceFirst(retValue, "set of ", ""))
+//@   ghostset @call:syslwrapper.(*AppMapper).mapSimpleReturnType mapped
+//@   ensures [every-return-is-mapped] ghost("mapped")
+//@   ensures [collection-has-one-item] contains(retValue, "sequence of ") || contains(retValue, "set of ") ==> result != nil && len(result.Items) == 1
